@@ -760,6 +760,7 @@ def task_eval_tables(tier, seed, arg):
 # --------------------------------------------------------------------------------------------
 
 TOL = 1e-12
+STRICT_MISSES = [0]      # points accepted only through the cancellation-safe scale (|terms| sum)
 
 
 def _terms(coef, Q):
@@ -812,6 +813,8 @@ def _ff_check(ctx, tab, sym, Z, q, fld, mode, Qs):
         try:
             o = float(o)
             ok = (o == e) or abs(o - e) <= TOL * max(abs(e), scale)
+            if ok and abs(o - e) > TOL * abs(e):
+                STRICT_MISSES[0] += 1
         except Exception:
             ok = False
         if not ok:
@@ -901,6 +904,8 @@ def task_formfactors(tier, seed, arg):
     notes.append("largest |j0(0)-1| = %.6g at %s (bound 0.005); largest |J(0)-1| = %.6g at %s (J is "
                  "not constrained at Q=0 by the property: note only)"
                  % (worst_j0[0], worst_j0[1], worst_J[0], worst_J[1]))
+    notes.append("grid points that pass only through the cancellation-safe scale (i.e. would fail "
+                 "a plain rel 1e-12 on the value): %d" % STRICT_MISSES[0])
     notes.append("coefficients for the expected values are read from the CFML text by this "
                  "module's reader, not taken from the library's tuples; expected value by "
                  "math.exp per point")
